@@ -183,6 +183,53 @@ def run_hypothesis(mod, ctx, strategy, n_examples, seed, shrink_budget=90.0):
     return None
 
 
+def ddmin_ops(mod, prop_id, tier, case, vio, budget=25.0):
+    """Delta-debug the history of a failing case ourselves (Hypothesis' shrinker has a wall budget here, and histories
+    are drawn with a minimum length so that long ones are common): drop chunks of case["ops"] while the SAME kind of
+    violation (same signature) still occurs.  Returns (violation, case)."""
+    ops = case.get("ops") if isinstance(case, dict) else None
+    if not isinstance(ops, list) or len(ops) < 2:
+        return vio, case
+    t_end = time.time() + budget
+    want = json.dumps(vio.sig, sort_keys=True, default=str)
+
+    def fails(cand):
+        ctx = Ctx(prop_id, tier)
+        try:
+            common.cold_module()
+            mod.run_case(cand, ctx)
+        except Violation as v:
+            return v if json.dumps(v.sig, sort_keys=True, default=str) == want else None
+        except BaseException:   # noqa - a candidate the harness cannot run is simply not kept
+            return None
+        finally:
+            ctx.end_case()
+        return None
+
+    best_v, best = vio, case
+    n = 2
+    while len(best["ops"]) >= 2 and time.time() < t_end:
+        cur = best["ops"]
+        size = max(1, len(cur) // n)
+        removed = False
+        for i in range(0, len(cur), size):
+            if time.time() >= t_end:
+                break
+            cand = dict(best, ops=cur[:i] + cur[i + size:])
+            if not cand["ops"]:
+                continue
+            v = fails(cand)
+            if v is not None:
+                best_v, best, removed = v, cand, True
+                n = max(n - 1, 2)
+                break
+        if not removed:
+            if size == 1:
+                break
+            n = min(len(cur), n * 2)
+    return best_v, best
+
+
 def _die_with_parent():
     """Workers die (with their whole process group: forked children, manager servers of the code under
     test) when the orchestrator dies or asks them to."""
@@ -244,6 +291,10 @@ def worker_main(prop_id, tier, seed, shard, nshards, out_path):
                                    shrink_budget=getattr(mod, "SHRINK_BUDGET", 90.0))
         if found is not None:
             v, case = found
+            try:
+                v, case = ddmin_ops(mod, prop_id, tier, case, v)
+            except BaseException:  # noqa - minimisation is best effort
+                pass
             res["violation"] = {"kind": v.kind, "detail": v.detail, "sig": v.sig, "case": case}
     except BaseException as e:  # noqa
         res["error"] = "".join(traceback.format_exception(type(e), e, e.__traceback__))[-4000:]
